@@ -338,6 +338,8 @@ def strat_closed(draw):
          "guess": draw(_guess(n))}
     if form == "langmuir":
         d["n_m"] = draw(_lg(1e-2, 1e2))
+        # a Langmuir component may be written as the Toth model with t = 1 (same equation, numerical spreading pressure)
+        d["as_toth"] = [draw(st.sampled_from([False, False, True])) for _ in range(n)]
     if draw(st.integers(0, 5)) == 0:
         j = draw(st.integers(0, n - 1))
         d["p"][j] = _r6(d["p"][j] * draw(_lg(1e-8, 1e-2)))
@@ -366,7 +368,12 @@ def check_closed(desc, ctx):
         comps = [{"kind": "model", "model": "Henry", "params": {"K": k}} for k in desc["K"]]
         want = R.henry_mixture(desc["K"], desc["p"])
     else:
-        comps = [{"kind": "model", "model": "Langmuir", "params": {"K": k, "n_m": desc["n_m"]}} for k in desc["K"]]
+        as_toth = desc.get("as_toth") or [False] * n
+        comps = [{"kind": "model", "model": "Toth", "params": {"K": k, "n_m": desc["n_m"], "t": 1.0}} if tt else
+                 {"kind": "model", "model": "Langmuir", "params": {"K": k, "n_m": desc["n_m"]}}
+                 for k, tt in zip(desc["K"], as_toth)]
+        if any(as_toth):
+            ctx.label("langmuir_written_as_toth")
         want = R.extended_langmuir(desc["n_m"], desc["K"], desc["p"])
     isos, pures = build_all(comps)
     xw = want / want.sum()
